@@ -452,6 +452,56 @@ def direct_probes(prop, rep):
             ("groupby", lambda: a.map(lambda kg: kg[0], a.groupby(Seq([1, 1, 2]))), lambda: map(lambda kg: kg[0], itertools.groupby(Seq([1, 1, 2])))),
         ]:
             both("sequence-protocol input: " + name, "getitem-input:" + name, lambda fa=fa: G.drive(alist(fa())), lambda fs=fs: list(fs()))
+        # None is an item like any other (a library that uses None as its own "nothing there" marker loses it)
+        NS = [None, 0, None, None, 1]
+        for name, fa, fs in [
+            ("zip strict, surplus None", lambda: a.zip([], [None], strict=True), lambda: zip([], [None], strict=True)),
+            ("zip strict, surplus None later", lambda: a.zip([1], [2, None], strict=True), lambda: zip([1], [2, None], strict=True)),
+            ("zip strict 3", lambda: a.zip([1], [2], [3, None], strict=True), lambda: zip([1], [2], [3, None], strict=True)),
+            ("zip", lambda: a.zip(NS, NS[1:]), lambda: zip(NS, NS[1:])),
+            ("zip_longest", lambda: a.zip_longest(NS, NS[:2], fillvalue=7), lambda: itertools.zip_longest(NS, NS[:2], fillvalue=7)),
+            ("chain", lambda: a.chain(NS, [None]), lambda: itertools.chain(NS, [None])),
+            ("islice", lambda: a.islice(NS, 1, 4), lambda: itertools.islice(NS, 1, 4)),
+            ("pairwise", lambda: a.pairwise(NS), lambda: itertools.pairwise(NS)),
+            ("batched", lambda: a.batched(NS, 2), lambda: itertools.batched(NS, 2)),
+            ("enumerate", lambda: a.enumerate(NS), lambda: enumerate(NS)),
+            ("takewhile", lambda: a.takewhile(lambda x: x is None, NS), lambda: itertools.takewhile(lambda x: x is None, NS)),
+            ("dropwhile", lambda: a.dropwhile(lambda x: x is None, NS), lambda: itertools.dropwhile(lambda x: x is None, NS)),
+            ("filter None", lambda: a.filter(None, NS), lambda: filter(None, NS)),
+            ("filterfalse None", lambda: a.filterfalse(None, NS), lambda: itertools.filterfalse(None, NS)),
+            ("compress", lambda: a.compress(NS, [1, 1, 0, 1, 1]), lambda: itertools.compress(NS, [1, 1, 0, 1, 1])),
+            ("accumulate keep", lambda: a.accumulate(NS, lambda p_, q_: q_), lambda: itertools.accumulate(NS, lambda p_, q_: q_)),
+            ("cycle", lambda: a.islice(a.cycle(NS[:3]), 7), lambda: itertools.islice(itertools.cycle(NS[:3]), 7)),
+            ("tee", lambda: a.tee(NS, 2)[1], lambda: itertools.tee(NS, 2)[1]),
+            ("groupby", lambda: a.map(lambda kg: kg[0], a.groupby(NS)), lambda: (k for k, _ in itertools.groupby(NS))),
+            ("iter sentinel None", lambda: a.iter(iter([1, 2, None, 3]).__next__, None), lambda: iter(iter([1, 2, None, 3]).__next__, None)),
+            ("map", lambda: a.map(lambda x, y: (x, y), NS, NS[::-1]), lambda: map(lambda x, y: (x, y), NS, NS[::-1])),
+            ("starmap", lambda: a.starmap(lambda x, y: y, [(None, None), (1, None)]), lambda: itertools.starmap(lambda x, y: y, [(None, None), (1, None)])),
+        ]:
+            both("None among the items: " + name, "none-items:" + name.split()[0].split(",")[0], lambda fa=fa: G.drive(alist(fa())), lambda fs=fs: list(fs()))
+        # cycle replays what it saw during the first pass, whatever happens to the input afterwards
+        def cyc(lib):
+            L = ["a", "b", "c"]
+            out = []
+            if lib == "asl":
+                c = a.cycle(L)
+
+                async def go():
+                    for i in range(10):
+                        if i == 4:
+                            L[1] = "B"
+                            L.append("d")
+                        out.append(await c.__anext__())
+                G.drive(go())
+            else:
+                c = itertools.cycle(L)
+                for i in range(10):
+                    if i == 4:
+                        L[1] = "B"
+                        L.append("d")
+                    out.append(next(c))
+            return out, L
+        both("cycle over a list that is modified after the first pass", "cycle:input-aliased", lambda: cyc("asl"), lambda: cyc("std"))
         both("anext default", "anext:default", lambda: G.drive(a.anext(a.iter([]), "d")), lambda: next(iter([]), "d"))
         both("anext", "anext:default", lambda: G.drive(a.anext(a.iter([4]))), lambda: next(iter([4])))
         both("anext exhausted", "anext:default", lambda: G.drive(a.anext(a.iter([]))), lambda: _stop_as_async(lambda: next(iter([]))))
@@ -486,6 +536,17 @@ def direct_probes(prop, rep):
             both("dict(iterator of pairs, **kwargs) %r %r" % (pairs, kw), "dict:kwargs", lambda: builtins.list(G.drive(a.dict(iter(pairs), **kw)).items()),
                  lambda: builtins.list(builtins.dict(iter(pairs), **kw).items()))
         both("dict(**kwargs) only", "dict:kwargs", lambda: builtins.list(G.drive(a.dict(p=1, q=2)).items()), lambda: builtins.list(builtins.dict(p=1, q=2).items()))
+        # None is a value like any other where the stdlib says so: an explicit initial / default of None is not "not given"
+        pair = lambda acc, x: (acc, x)  # noqa
+        import functools as _ft
+        both("reduce(f, [], None)", "none-argument:reduce", lambda: G.drive(a.reduce(pair, [], None)), lambda: _ft.reduce(pair, [], None))
+        both("reduce(f, [7], None)", "none-argument:reduce", lambda: G.drive(a.reduce(pair, [7], None)), lambda: _ft.reduce(pair, [7], None))
+        both("reduce(f, [7, 8], None)", "none-argument:reduce", lambda: G.drive(a.reduce(pair, [7, 8], None)), lambda: _ft.reduce(pair, [7, 8], None))
+        both("min([], default=None)", "none-argument:min", lambda: G.drive(a.min([], default=None)), lambda: builtins.min([], default=None))
+        both("max([], key=len, default=None)", "none-argument:max", lambda: G.drive(a.max([], key=len, default=None)), lambda: builtins.max([], key=len, default=None))
+        both("min(iter([]), key=len, default=None)", "none-argument:min", lambda: G.drive(a.min(iter([]), key=len, default=None)), lambda: builtins.min(iter([]), key=len, default=None))
+        both("max(['bb', 'a'], key=len, default=None)", "none-argument:max", lambda: G.drive(a.max(["bb", "a"], key=len, default=None)), lambda: builtins.max(["bb", "a"], key=len, default=None))
+        both("sum([], None)", "none-argument:sum", lambda: G.drive(a.sum([], None)), lambda: builtins.sum([], None))
         both("reduce empty", "reduce:empty", lambda: G.drive(a.reduce(lambda x, y: x + y, [])), lambda: __import__("functools").reduce(lambda x, y: x + y, []))
         class FalsyKey:          # a callable container that is empty: falsy, still the key function
             def __call__(self, x):
@@ -736,6 +797,17 @@ def check_faults(prop, tier, seed):
             rep.count((c.name, repr(c.params), repr(c.srcs), plan), True, sample=cp.describe())
             if why is None:
                 why = fault_oracle(prop, c, cp, rp, uk)
+            if why is None and prop == "C18" and nplans % 2 == 0:
+                # what a source's aclose() returns must not matter under cancellation either (it must never act as the
+                # "suppress" answer of an __aexit__)
+                G.Src.close_result = True
+                try:
+                    rt, whyt = run_cancel(cp, uk)
+                finally:
+                    G.Src.close_result = None
+                if whyt is None and rt is not None and rp is not None and rt["outcome"][:2] != rp["outcome"][:2]:
+                    whyt = ("close-result-matters", "with sources whose aclose() returns a truthy value the cancelled run ends differently: %r vs %r" % (rt["outcome"][:2], rp["outcome"][:2]))
+                why = whyt
             if why is None and prop in ("C04", "C06") and nplans % 3 == 0:
                 # what a source's aclose() returns must not matter (it is not an __aexit__)
                 G.Src.close_result = True
